@@ -407,6 +407,28 @@ class Ctx:
                     v = _UNK
                 if isinstance(v, (int, str, bytes)) and not isinstance(v, bool):
                     return v
+            # a function of the stdlib `operator` module (imported by name or used as operator.<f>): the function itself - a pure leaf
+            if isinstance(x, (_ast.Name, _ast.Attribute)):
+                import operator as _op
+                imp = getattr(fn.module, "_operator_imports", None)
+                if imp is None:
+                    imp = {}
+                    for st in getattr(fn.module.tree, "body", []):
+                        if isinstance(st, _ast.ImportFrom) and st.module == "operator":
+                            for al in st.names:
+                                imp[al.asname or al.name] = al.name
+                        elif isinstance(st, _ast.Import):
+                            for al in st.names:
+                                if al.name == "operator":
+                                    imp[(al.asname or al.name) + "."] = "*"
+                    try:
+                        fn.module._operator_imports = imp
+                    except Exception:  # noqa: BLE001
+                        pass
+                if isinstance(x, _ast.Name) and x.id in imp and hasattr(_op, imp[x.id]):
+                    return getattr(_op, imp[x.id])
+                if isinstance(x, _ast.Attribute) and isinstance(x.value, _ast.Name) and (x.value.id + ".") in imp and hasattr(_op, x.attr):
+                    return getattr(_op, x.attr)
             # an enum class / an enum member of the analysed program: its model
             if isinstance(x, _ast.Name) or (isinstance(x, _ast.Attribute) and isinstance(x.value, _ast.Name)):
                 try:
